@@ -45,7 +45,7 @@ Proof. vm_compute. reflexivity. Qed.
 From JP Require Import KeyDefs FiltParse FiltChain ErrText.
 From Coq Require Import List NArith. Import ListNotations.
 Theorem C17_garbage_after_path_from_text : forall cfg parse_float regex_ok l c t,
-  forallb fstep_ok l = true -> forallb (fstep_okp parse_float) l = true -> closer c ->
+  forallb fstep_ok l = true -> forallb (fstep_okp parse_float regex_ok) l = true -> closer c ->
   parse_with cfg parse_float regex_ok jsonpath_grammar (fchain_path l ++ c :: t) =
   ParseErr (ESyntax (1 + List.length (render_fsteps l)) RUnrecognized).
 Proof. exact garbage_after_path. Qed.
